@@ -227,10 +227,18 @@ def register_props(PROPS, g):
                     "assumptions": ["admissible layout = the class cst_wf of coq/theories (Cst.v, RoundTripL.v): it is what the lexer's state machine accepts, e.g. no line end directly after a string inside an argument list, "
                                     "commands are ASCII after their first letter and contain '}' only inside {{.NAME}}"],
                     "trusted_extra": ["the harness's renderer is compared with the model's render on every case (field 0)"]}
-    PROPS["C18"] = {"components": ["hash"], "oracle": ["C18"], "decode": None,
-                    "relevant": (lambda m: (m[2].split() or [""])[0] != (m[3].split() or [""])[0]),
+    def _rc_hash_err(m):
+        """history component under C18: the first operation on which the two differ, one side stopped on an unreadable dependency and the other did not"""
+        a, b = m[2].split(" ; "), m[3].split(" ; ")
+        for x, y in zip(a, b):
+            if x != y:
+                return x.startswith("err hash") != y.startswith("err hash")
+        return False
+    PROPS["C18"] = {"components": ["hash", "runcache"], "oracle": ["C18"], "decode": None,
+                    "relevant": {"hash": (lambda m: (m[2].split() or [""])[0] != (m[3].split() or [""])[0]), "runcache": _rc_hash_err},
                     "nontrivial": ("distinct_nontrivial", "distinct path lists with at least two entries"),
-                    "rule": hash_rule + "; plus 20 lists with a file removed while the list is hashed (implementation only)",
+                    "rule": hash_rule + "; plus 20 lists with a file removed while the list is hashed (implementation only); plus the run histories of the cache component, "
+                            "where a selected task naming a file that is not there must stop the run with an error, forced or not",
                     "assumptions": ["data-race freedom is not expressible in the transition system; it is observed by the race-detector build only",
                                     "the Go scheduler is abstracted as an arbitrary choice among enabled transitions (receive+process is one atomic step)"],
                     "trusted_extra": ["os.Open/Stat/io.Copy are abstracted as a map path -> Regular content | Directory | Unreadable"]}
